@@ -87,6 +87,13 @@ def c_series_bounds(rng):
             stb = cs.arr.sindex.total_bounds
             if not all(nan_eq(a, c) for a, c in zip(stb, tb)):
                 out.append(V(f'sindex.total_bounds/{kind_class(kind)}/{region_of(cs.view)}', f'got {stb} expected {tb}', cs.recipe))
+            # ... for every page size (several pages: pages that hold only missing / empty rows)
+            a2 = cs.arr.copy()
+            ps = rng.choice([1, 2, 3])
+            a2.build_sindex(page_size=ps, p=rng.choice([1, 4, 10]))
+            stb2 = a2.sindex.total_bounds
+            if not all(nan_eq(a, c) for a, c in zip(stb2, tb)):
+                out.append(V(f'sindex.total_bounds-small-pages/{kind_class(kind)}/{region_of(cs.view)}', f'page_size {ps}: got {stb2} expected {tb}', cs.recipe))
             # the index built by the array / series answers in terms of ROW POSITIONS of that array, whatever rows
             # are missing or empty
             bx = oracle.norm_box(gen.box(rng))
@@ -113,6 +120,66 @@ def c_series_bounds(rng):
     return out
 
 
+@check(('C16', 'C14', 'C01', 'C08', 'C13'), 'series.wrappers-keep-index')
+def c_series_wrappers(rng):
+    """every GeoSeries-level quantity is the array-level quantity carried by the labels of the series it was computed on -
+    also for a series obtained by row selection (non-default, non-monotonic labels)"""
+    import spatialpandas as sp
+    kind = rng.choice(gen.KINDS)
+    cs = gen.case(kind, rng, derive=False, n=rng.choice([3, 5, 6]), p_missing=0.15)
+    n = len(cs.view)
+    s0 = sp.GeoSeries(cs.arr, index=[f'r{i}' for i in range(n)] if rng.random() < 0.5 else list(range(n)))
+    how = rng.choice(['source', 'iloc-list', 'reversed', 'mask', 'tail'])
+    if how == 'iloc-list':
+        pos = [rng.randrange(n) for _ in range(rng.randint(1, n))]
+        s = s0.iloc[pos]
+    elif how == 'reversed':
+        pos = list(range(n))[::-1]
+        s = s0.iloc[::-1]
+    elif how == 'mask':
+        m = [rng.random() < 0.6 for _ in range(n)]
+        pos = [i for i in range(n) if m[i]]
+        s = s0[np.array(m)]
+    elif how == 'tail':
+        k = rng.randint(1, n)
+        pos = list(range(n - k, n))
+        s = s0.iloc[n - k:]
+    else:
+        pos = list(range(n))
+        s = s0
+    labels = [s0.index[i] for i in pos]
+    view = [cs.view[i] for i in pos]
+    bx = gen.box(rng)
+    eff = oracle.norm_box(bx)
+    out = []
+    recipe = dict(cs.recipe, derivation=how, positions=pos, box=bx)
+
+    def chk(name, ser, exp, eq):
+        if list(ser.index) != labels:
+            out.append(V(f'series.{name}/index-labels/{how}', f'{list(ser.index)} expected {labels}', recipe))
+        elif not all(eq(a, b) for a, b in zip(list(ser.values), exp)):
+            out.append(V(f'series.{name}/values/{how}', f'{list(ser.values)} expected {exp}', recipe))
+    try:
+        finite = all(math.isfinite(c) for el in view if el is not None for c in oracle.flat_coords(kind, el))
+        if finite:
+            chk('intersects_bounds', s.intersects_bounds(bx), [bool(oracle.intersects_bounds(kind, el, eff)) for el in view],
+                lambda a, b: bool(a) == b)
+        chk('length', s.length, [oracle.length(kind, el) for el in view], close)
+        if kind in ('polygon', 'multipolygon'):
+            chk('area', s.area, [oracle.area(kind, el) for el in view], lambda a, b: close(a, b, rel=0))
+        b = s.bounds
+        if list(b.index) != labels:
+            out.append(V(f'series.bounds/index-labels/{how}', f'{list(b.index)}', recipe))
+        if len(view) and not any(math.isnan(v) for v in oracle.total_bounds(kind, view)):
+            d = s.hilbert_distance(p=3)
+            ref = s.array.hilbert_distance(p=3)
+            if list(d.index) != labels or [int(x) for x in d.values] != [int(x) for x in ref]:
+                out.append(V(f'series.hilbert_distance/index-or-values/{how}', f'{list(d.index)} {list(d.values)} vs {list(ref)}', recipe))
+    except Exception as e:
+        out.append(V(f'series.wrappers/raises-{type(e).__name__}/{how}', f'{e}', recipe))
+    return out
+
+
 # ------------------------------------------------------------------ C14
 
 def close(a, b, rel=1e-12):
@@ -127,6 +194,10 @@ def c_measures(rng):
     kind = rng.choice(gen.KINDS)
     cs = gen.case(kind, rng, p_empty=0.0 if kind in ('line', 'ring', 'multiline', 'polygon', 'multipolygon') else 0.1,
                   allow_nonfinite=(kind in ('line', 'multiline')))
+    if rng.random() < 0.25 and all(math.isfinite(c) and float(c).is_integer() for c in gen._coords(cs.recipe['elements'])):
+        # large integer coordinates (still exact in every subtype): areas beyond 2**24, which float32 cannot hold exactly
+        els = gen.scaled(cs.recipe['elements'], 1025.0)
+        cs = gen.Case(kind, els, cs.recipe['steps'], gen.pick_dtype(rng, els))
     out = []
     L, A = cs.arr.length, cs.arr.area
     for i, el in enumerate(cs.view):
